@@ -111,6 +111,23 @@ def compare_namespace(model, nsn, tree, mod, pkg, mods):
     if st_aliases != set(rt_class_aliases):
         bad.append(('class-aliases-differ', 'stub %s declares class aliases %r, the module defines %r' % (nsn, sorted(st_aliases), sorted(rt_class_aliases))))
 
+    # name resolution for the classes that are not structs or unions of the spec (annotation types): every annotation of every
+    # method, attribute and base must resolve
+    model_types = {d.name for n, fi, di, d in mm.all_defs(model, nsn) if isinstance(d, (Struct, Union))}
+    for cname, cnode in classes.items():
+        if cname in model_types:
+            continue
+        for b in cnode.bases:
+            check_names(b, 'the bases of %s' % cname)
+        for item in cnode.body:
+            if isinstance(item, ast.AnnAssign):
+                check_names(item.annotation, 'attribute %s.%s' % (cname, getattr(item.target, 'id', '?')))
+            elif isinstance(item, ast.FunctionDef):
+                for a in item.args.args + item.args.kwonlyargs:
+                    if a.annotation is not None:
+                        check_names(a.annotation, '%s.%s' % (cname, item.name))
+                if item.returns is not None:
+                    check_names(item.returns, '%s.%s' % (cname, item.name))
     for n, fi, di, d in mm.all_defs(model, nsn):
         if not isinstance(d, (Struct, Union)) or d.name not in classes or d.name not in rt_classes:
             continue
